@@ -7,6 +7,8 @@ import ast
 import re
 from typing import Callable, Dict, List, Optional, Set, Tuple
 
+from .terms import guards_consistent
+
 from .ctx import Ctx
 from .grammar import View
 from .model import AnalysisError, FunctionInfo
@@ -157,6 +159,7 @@ def _is_type(ctx: Ctx, name: str) -> Callable[[Term], bool]:
 def F1(ctx: Ctx) -> RuleResult:
     r = RuleResult('F1', 'parse flows: every transformer callback routes each child position to the AST field the grammar rule assigns to it (factories summarised)')
     n = 0
+    cur_guards: List = [()]
 
     def single(name: str, exp, guard_ok=None):
         nonlocal n
@@ -169,6 +172,9 @@ def F1(ctx: Ctx) -> RuleResult:
             return
         for o in rets:
             for g, leaf in alternatives(o.value):
+                cur_guards[0] = tuple(o.guards) + tuple(g)
+                if not guards_consistent(cur_guards[0]):
+                    continue    # `c is None` and `c is not None` at once: not a path
                 if isinstance(exp, Expect):
                     good &= check_new(ctx, r, name, fi.where, leaf, exp)
                 elif callable(exp):
@@ -215,7 +221,16 @@ def F1(ctx: Ctx) -> RuleResult:
     def pred_matcher(got: Term) -> Optional[str]:
         vt = lambda t: isinstance(resolve_defaults(ctx, t), New) and t.cls == 'HplVacuousTruth'
         if vt(got):
-            return None  # only on the path where c2 is None (checked by guard below)
+            # the default, only where no predicate was parsed
+            from .terms import implied_literals
+            absent = None
+            for t_, pol_ in implied_literals(cur_guards[0], 12):
+                nt_ = none_test(t_)
+                if nt_ and nt_[0] == C(2):
+                    absent = nt_[1] if pol_ else not nt_[1]
+            if absent is True:
+                return None
+            return 'the event gets the vacuous truth as its predicate although a predicate was parsed (c2 is not None): the predicate of the event is lost'
         if isinstance(got, Ite):
             nt = none_test(got.test)
             if nt and nt[0] == C(2):
@@ -697,6 +712,8 @@ def F2(ctx: Ctx) -> RuleResult:
     for o in rets:
         if not ((isinstance(o.value, DictT) and not o.value.items) or o.value in fresh_dicts):
             r.fail('metadata:return', f'returns {str(o.value)[:60]}, not the dict built by this call', fi.where)
+    if not rets or any(o.kind == 'fall' for o in outs):
+        r.fail('metadata:return', 'a path through the callback ends without returning the collected annotations (None reaches hpl_property, which reads it as "no annotations")', fi.where)
     for name, k in (('metadata_id', 'id'), ('metadata_title', 'title'), ('metadata_desc', 'description')):
         fi, outs, _ = callback_outcomes(ctx, name)
         ok = len(outs) == 1 and outs[0].value == TupleT((Const(k), C(0)))
